@@ -22,6 +22,18 @@ class Untranslatable(Exception):
     pass
 
 
+LEAN_WORDS = {'prefix', 'infix', 'infixl', 'infixr', 'postfix', 'notation', 'open', 'end', 'from', 'at', 'in', 'by', 'do', 'then',
+              'else', 'if', 'fun', 'let', 'have', 'show', 'match', 'with', 'where', 'instance', 'class', 'structure', 'macro',
+              'syntax', 'section', 'namespace', 'variable', 'universe', 'local', 'private', 'protected', 'theorem', 'def',
+              'example', 'axiom', 'import', 'export', 'deriving', 'mutual', 'partial', 'unsafe', 'nomatch', 'suffices', 'calc',
+              'Type', 'Prop', 'Sort', 'forall', 'exists', 'using', 'extends', 'abbrev', 'inductive', 'return', 'for', 'unless'}
+
+
+def nm(x):
+    """a Python identifier as a Lean identifier"""
+    return x + '_' if x in LEAN_WORDS else x
+
+
 EXC = {'IndexError': 'index', 'ValueError': 'value', 'TypeError': 'type_', 'AddrFormatError': 'addrFormat',
        'AddrConversionError': 'addrConversion', 'NotImplementedError': 'notImpl', 'KeyError': 'key',
        'NotRegisteredError': 'notRegistered'}
@@ -88,6 +100,9 @@ FUNCS = [
     # return: Python returns None there, which no constructed object reaches - the theorems assume version 48 or 64)
     dict(name='EUI_is_iab', tie='NV.Tie.eui_is_iab', prop='C08', file='eui/__init__.py', cls='EUI', func='is_iab', kind='eui', params=[], ret='bool', end='false'),
     dict(name='EUI_eui64', tie='NV.Tie.eui_eui64', prop='C08', file='eui/__init__.py', cls='EUI', func='eui64', kind='eui', params=[], ret='ctor2'),
+    dict(name='EUI_modified_eui64', tie='NV.Tie.eui_modified_eui64', prop='C08', file='eui/__init__.py', cls='EUI', func='modified_eui64', kind='eui', params=[], ret='ctor2'),
+    dict(name='EUI_ipv6', tie='NV.Tie.eui_ipv6', prop='C08', file='eui/__init__.py', cls='EUI', func='ipv6', kind='eui', params=[('prefix', 'int')], ret='ctor2'),
+    dict(name='EUI_ipv6_link_local', tie='NV.Tie.eui_ipv6_link_local', prop='C08', file='eui/__init__.py', cls='EUI', func='ipv6_link_local', kind='eui', params=[], ret='ctor2'),
     dict(name='IAB_split_iab_mac', tie='NV.Tie.iab_split', prop='C08', file='eui/__init__.py', cls='IAB', func='split_iab_mac', kind=None, params=[('eui_int', 'int'), ('strict', 'bool')], ret='tuple2'),
     # the halving loop of cidr_partition (arguments already IPNetwork objects: `target = IPNetwork(target)` is the identity)
     dict(name='cidr_partition', tie='NV.Tie.cidr_partition_eq', prop='C09', file='ip/__init__.py', cls=None, func='cidr_partition', kind=None,
@@ -134,6 +149,7 @@ class Ctx:
         self.objs = {p: t[4:] for p, t in spec['params'] if t.startswith('obj:')}
         self.opts = set()           # local variables holding Optional constructor results
         self.vartypes = {}          # local variable -> 'int' | 'list3'
+        self.objvars = {}           # local variable holding a constructed object -> names of its tuple components
         self.fn = None              # the FunctionDef being translated
         self.stored = 0             # > 0 while translating statements that follow a store to a field of self
         self.loops = []             # auxiliary loop definitions (text)
@@ -236,7 +252,21 @@ def is_ctor_call(ctx, e):
     return False
 
 
+def ctor_class(ctx, e):
+    f = e.func
+    if isinstance(f, ast.Name) and f.id in ('IPAddress', 'IPNetwork', 'EUI'):
+        return f.id
+    return ctx.spec.get('self_cls') or ctx.spec['cls']        # klass / self.__class__
+
+
 def ctor_args(ctx, e):
+    # signatures: IPAddress(addr, version=None, flags=0), EUI(addr, version=None, dialect=None) - a second positional
+    # argument IS the version; IPNetwork(addr, implicit_prefix=False, version=None, flags=0) - it is NOT
+    # (seed C09-r9-1 / C11-r9-1 passed the version there; the tuple kept by the translation must not hide that)
+    if ctor_class(ctx, e) in ('IPNetwork', 'IPListMixin', None) and len(e.args) > 1:
+        raise Untranslatable('IPNetwork(...) with a second positional argument: that parameter is implicit_prefix, not version')
+    if len(e.args) > 2:
+        raise Untranslatable('constructor call with more than two positional arguments')
     out = []
     for a in e.args:
         if isinstance(a, ast.Tuple):
@@ -273,7 +303,7 @@ def ival(ctx, e):
     if isinstance(e, ast.Name):
         if e.id in ctx.bools:
             raise Untranslatable('bool variable used as int')
-        return e.id
+        return nm(e.id)
     it = intrinsic(ctx, e)
     if it is not None:
         return it
@@ -296,6 +326,11 @@ def ival(ctx, e):
             return 'lo'
         if ctx.kind == 'rng' and attr_chain(a) == ['self', '_end']:
             return 'hi'
+        if isinstance(a, ast.Call) and isinstance(a.func, ast.Attribute) and isinstance(a.func.value, ast.Name) \
+                and a.func.value.id == 'self' and not a.keywords:
+            sm = lookup_member(ctx, a.func.attr)
+            if sm is not None and sm['ret'] == 'ctor2' and not sm.get('_raises'):
+                return '%s.1' % call_member(ctx, sm, [ival(ctx, x) for x in a.args])[0]
         # int(self.network) etc.: the integer of a constructor tuple is its first component
         if isinstance(a, ast.Attribute) and isinstance(a.value, ast.Name) and a.value.id == 'self':
             s = lookup_member(ctx, a.attr)
@@ -431,6 +466,13 @@ def retval(ctx, e):
         raise Untranslatable('return of something else than self')
     if r.startswith('ctor'):
         n = int(r[4:])
+        if isinstance(e, ast.Name) and e.id in ctx.objvars and len(ctx.objvars[e.id]) == n:
+            return '(' + ', '.join(ctx.objvars[e.id]) + ')'
+        if isinstance(e, ast.Call) and isinstance(e.func, ast.Attribute) and isinstance(e.func.value, ast.Name) \
+                and e.func.value.id == 'self' and not e.keywords:
+            sm = lookup_member(ctx, e.func.attr)
+            if sm is not None and sm['ret'] == r and not sm.get('_raises'):
+                return call_member(ctx, sm, [ival(ctx, x) for x in e.args])[0]
         if is_ctor_call(ctx, e):
             a = ctor_args(ctx, e)
             if len(a) != n:
@@ -523,6 +565,13 @@ def block(ctx, stmts, ind, loop=None):
             finally:
                 ctx.stored -= 1
             return '%slet %s : Int := %s\n%s' % (pad, fld, rhs, tail)
+        if isinstance(tgt, ast.Attribute) and isinstance(tgt.value, ast.Name) and tgt.value.id in ctx.objvars \
+                and tgt.attr == '_value':
+            c0 = ctx.objvars[tgt.value.id][0]
+            val2 = val
+            if isinstance(s, ast.AugAssign):
+                val2 = ast.BinOp(left=ast.Name(id=c0), op=s.op, right=s.value)
+            return '%slet %s : Int := %s\n%s' % (pad, c0, ival(ctx, val2), block(ctx, rest, ind, loop))
         if not isinstance(tgt, ast.Name):
             raise Untranslatable('assignment target')
         v = tgt.id
@@ -543,6 +592,18 @@ def block(ctx, stmts, ind, loop=None):
         if is_ctor_call(ctx, val) and (v in ctx.opts or ctx.spec['ret'].startswith('opt_ctor')):
             ctx.opts.add(v)
             return '%slet %s : %s := some (%s)\n%s' % (pad, v, ret_type(ctx.spec), ', '.join(ctor_args(ctx, val)), block(ctx, rest, ind, loop))
+        # x = self.member() where the member returns a constructed object: x is a fresh object the function owns
+        if isinstance(val, ast.Call) and isinstance(val.func, ast.Attribute) and isinstance(val.func.value, ast.Name) \
+                and val.func.value.id == 'self' and not val.keywords:
+            sm = lookup_member(ctx, val.func.attr)
+            if sm is not None and sm['ret'] in ('ctor2', 'ctor3') and not sm.get('_raises'):
+                t, _ = call_member(ctx, sm, [ival(ctx, a) for a in val.args])
+                n = int(sm['ret'][4:])
+                comps = ['%s__%d' % (v, i) for i in range(n)]
+                ctx.objvars[v] = comps
+                proj = ['.1', '.2'] if n == 2 else ['.1', '.2.1', '.2.2']
+                lets = ''.join('%slet %s : Int := %s%s\n' % (pad, c, t, pj) for c, pj in zip(comps, proj))
+                return lets + block(ctx, rest, ind, loop)
         # x = self.raising_member()
         if isinstance(val, ast.Call) and isinstance(val.func, ast.Attribute) and isinstance(val.func.value, ast.Name) \
                 and val.func.value.id == 'self':
@@ -607,7 +668,7 @@ def param_binders(spec):
         if t.startswith('obj:'):
             out += ['(%s_%s : %s)' % (p, f, 'Nat' if f == 'ver' else 'Int') for f in OBJ_FIELDS[t[4:]]]
         else:
-            out.append('(%s : %s)' % (p, 'Bool' if t == 'bool' else 'Int'))
+            out.append('(%s : %s)' % (nm(p), 'Bool' if t == 'bool' else 'Int'))
     return out
 
 
@@ -617,7 +678,7 @@ def param_names(spec):
         if t.startswith('obj:'):
             out += ['%s_%s' % (p, f) for f in OBJ_FIELDS[t[4:]]]
         else:
-            out.append(p)
+            out.append(nm(p))
     return out
 
 
